@@ -85,8 +85,10 @@ fn submulf(v: &mut [f64], w: &[f64], m: f64) {
 pub fn det_matz(mat: Vec<&[i64]>, log2estimate: f64) -> I4096 {
     let bits = log2estimate.round();
     assert!(bits >= 1.0);
+    // At most 64 primes: the CRT sum of 65 terms (62-bit residue times product of 65
+    // 62-bit primes) does not fit in I4096.
     assert!(
-        bits <= 63.0 * 64.0,
+        bits <= 60.0 * 64.0,
         "determinant is too large {log2estimate:.1} bits"
     );
     let bits = bits as usize;
@@ -385,8 +387,9 @@ impl<'a> CRTDetBuilder<'a> {
     fn det(&mut self, nth_row: &[i64], log2estimate: f64) -> I4096 {
         let bits = log2estimate.round();
         assert!(bits >= 1.0);
+        // At most 66 primes of 61 bits, otherwise the CRT sum does not fit in I4096.
         assert!(
-            bits <= 63.0 * 64.0,
+            bits <= 60.0 * 66.0,
             "determinant is too large {log2estimate:.1} bits"
         );
         let bits = bits as usize;
